@@ -21,6 +21,7 @@ package signature
 import (
 	"errors"
 
+	"github.com/ontio/ontology-crypto/ec"
 	"github.com/ontio/ontology-crypto/keypair"
 	s "github.com/ontio/ontology-crypto/signature"
 )
@@ -35,8 +36,21 @@ func Sign(signer Signer, data []byte) ([]byte, error) {
 	return s.Serialize(signature)
 }
 
+// onCurve reports whether an EC public key is a point of its curve. The key decoder accepts
+// uncompressed points unchecked, and the elliptic-curve code panics when handed such a point,
+// so no signature can verify under it.
+func onCurve(k keypair.PublicKey) bool {
+	if e, ok := k.(*ec.PublicKey); ok {
+		return e.PublicKey != nil && e.Curve != nil && e.X != nil && e.Y != nil && e.Curve.IsOnCurve(e.X, e.Y)
+	}
+	return true
+}
+
 // Verify check the signature of data using pubKey
 func Verify(pubKey keypair.PublicKey, data, signature []byte) error {
+	if !onCurve(pubKey) {
+		return errors.New("invalid public key: point is not on its curve")
+	}
 	sigObj, err := s.Deserialize(signature)
 	if err != nil {
 		return errors.New("invalid signature data: " + err.Error())
@@ -67,7 +81,7 @@ func VerifyMultiSignature(data []byte, keys []keypair.PublicKey, m int, sigs [][
 			return errors.New("invalid signature data")
 		}
 		for j := 0; j < n; j++ {
-			if mask[j] {
+			if mask[j] || !onCurve(keys[j]) {
 				continue
 			}
 			if s.Verify(keys[j], data, sig) {
